@@ -8,82 +8,102 @@ Local Open Scope list_scope.
 Lemma find_ext : forall A (p q : A -> bool) l, (forall x, p x = q x) -> find p l = find q l.
 Proof. induction l; simpl; intros; auto. rewrite H. destruct (q a); auto. Qed.
 
+Lemma by_key_perm : forall V (seq seq' : list (string * V)), NoDup (map fst seq) -> Permutation seq seq' ->
+  by_key seq = by_key seq'.
+Proof. intros. unfold by_key. now apply sort_by_key_perm_invariant. Qed.
+
 (* ------------------------------------------------------------------ inferDiscriminatorField *)
-(* the order in which the branch types are collected never matters (all-quantifier) *)
-Theorem infer_types_order_irrelevant_proof : forall c st st' sf, Permutation st st' ->
-  inferDiscriminatorField c st sf = inferDiscriminatorField c st' sf.
+(* CURRENT code (candidate field names sorted): the result depends on neither iteration *)
+Theorem inferDiscriminatorField_invariant_proof : forall c st st' sf sf',
+  Permutation st st' -> Permutation sf sf' ->
+  inferDiscriminatorField c st sf = inferDiscriminatorField c st' sf'.
 Proof.
-  intros. unfold inferDiscriminatorField, first_match.
+  intros c st st' sf sf' Ht Hf. unfold inferDiscriminatorField.
+  rewrite (sort_strings_perm_invariant sf sf' Hf).
+  unfold inferDiscriminatorField_unsorted, first_match.
   rewrite (find_ext _ (exists_in_all_branches c st) (exists_in_all_branches c st')); auto.
   intros x. unfold exists_in_all_branches. now apply forallb_perm.
 Qed.
 
-(* with at most one candidate field common to all branches the result is order-free *)
-Theorem infer_unique_candidate_invariant_proof : forall c st sf sf',
-  (forall a b, In a sf -> In b sf -> exists_in_all_branches c st a = true -> exists_in_all_branches c st b = true -> a = b) ->
-  Permutation sf sf' -> inferDiscriminatorField c st sf = inferDiscriminatorField c st sf'.
+(* the UNSORTED variant (the code before fix 5b9ef0c; not cog's code any more): the order in which
+   the branch types are collected never mattered ... *)
+Theorem infer_unsorted_types_order_irrelevant_proof : forall c st st' sf, Permutation st st' ->
+  inferDiscriminatorField_unsorted c st sf = inferDiscriminatorField_unsorted c st' sf.
 Proof.
-  intros c st sf sf' Hu Hp. unfold inferDiscriminatorField.
+  intros. unfold inferDiscriminatorField_unsorted, first_match.
+  rewrite (find_ext _ (exists_in_all_branches c st) (exists_in_all_branches c st')); auto.
+  intros x. unfold exists_in_all_branches. now apply forallb_perm.
+Qed.
+(* ... with at most one candidate field common to all branches it was order-free ... *)
+Theorem infer_unsorted_unique_candidate_invariant_proof : forall c st sf sf',
+  (forall a b, In a sf -> In b sf -> exists_in_all_branches c st a = true -> exists_in_all_branches c st b = true -> a = b) ->
+  Permutation sf sf' -> inferDiscriminatorField_unsorted c st sf = inferDiscriminatorField_unsorted c st sf'.
+Proof.
+  intros c st sf sf' Hu Hp. unfold inferDiscriminatorField_unsorted.
   now rewrite (first_match_perm_unique _ _ sf sf' Hp Hu).
 Qed.
-
-(* two candidate fields: the inferred discriminator depends on the map order *)
+(* ... but with two candidate fields it depended on the map order: why the sort is needed *)
 Definition two_candidates : candidates_t :=
   [("Circle", [("kind", "circle"); ("type", "c")]); ("Square", [("kind", "square"); ("type", "s")])].
-Theorem infer_two_candidates_refuted_proof :
-  exists c st sf sf', Permutation sf sf' /\ inferDiscriminatorField c st sf <> inferDiscriminatorField c st sf'.
+Theorem infer_unsorted_two_candidates_refuted_proof :
+  exists c st sf sf', Permutation sf sf' /    inferDiscriminatorField_unsorted c st sf <> inferDiscriminatorField_unsorted c st sf'.
 Proof.
   exists two_candidates, ["Circle"; "Square"], ["kind"; "type"], ["type"; "kind"].
   split; [apply perm_swap|]. vm_compute. discriminate.
 Qed.
 
 (* ------------------------------------------------------------------ Pipeline.interpolate *)
+(* CURRENT code (keys sorted): one pass in key order, whatever the map yields *)
+Theorem interpolate_invariant_proof : forall seq seq' input,
+  NoDup (map fst seq) -> Permutation seq seq' -> interpolate seq input = interpolate seq' input.
+Proof. intros. unfold interpolate. now rewrite (by_key_perm _ seq seq'). Qed.
+
 Definition interp_step (acc : string) (kv : string * string) : string :=
   replace_all ("%" ++ fst kv ++ "%")%string (snd kv) acc.
 
-Theorem interpolate_invariant_if_commute_proof : forall seq seq' input, Permutation seq seq' ->
+(* the UNSORTED variant (before fix 93a37e5) *)
+Theorem interpolate_unsorted_invariant_if_commute_proof : forall seq seq' input, Permutation seq seq' ->
   (forall s x y, In x seq -> In y seq -> interp_step (interp_step s x) y = interp_step (interp_step s y) x) ->
-  interpolate seq input = interpolate seq' input.
-Proof. intros. unfold interpolate. apply (fold_left_comm_perm_in _ _ interp_step); auto. Qed.
-
+  interpolate_unsorted seq input = interpolate_unsorted seq' input.
+Proof. intros. unfold interpolate_unsorted. apply (fold_left_comm_perm_in _ _ interp_step); auto. Qed.
 (* a parameter whose value mentions another parameter: substituted or not, depending on the order *)
-Theorem interpolate_nested_refuted_proof :
-  exists seq seq' input, Permutation seq seq' /\ interpolate seq input <> interpolate seq' input.
+Theorem interpolate_unsorted_nested_refuted_proof :
+  exists seq seq' input, Permutation seq seq' /\ interpolate_unsorted seq input <> interpolate_unsorted seq' input.
 Proof.
   exists [("outer", "o%inner%"); ("inner", "gen")], [("inner", "gen"); ("outer", "o%inner%")], "root/%outer%".
   split; [apply perm_swap|]. vm_compute. discriminate.
 Qed.
 (* even flat values: two patterns sharing a '%' in the input *)
-Theorem interpolate_overlap_refuted_proof :
-  exists seq seq' input, Permutation seq seq' /\ interpolate seq input <> interpolate seq' input.
+Theorem interpolate_unsorted_overlap_refuted_proof :
+  exists seq seq' input, Permutation seq seq' /\ interpolate_unsorted seq input <> interpolate_unsorted seq' input.
 Proof.
   exists [("a", "1"); ("b", "2")], [("b", "2"); ("a", "1")], "%a%b%".
   split; [apply perm_swap|]. vm_compute. discriminate.
 Qed.
 
 (* ------------------------------------------------------------------ typescript formatValue *)
-Theorem formatValue_map_refuted_proof :
-  exists seq seq', Permutation seq seq' /\ formatValue_map seq <> formatValue_map seq'.
+(* CURRENT code (orderedmap.FromMap: keys sorted) *)
+Theorem formatValue_map_invariant_proof : forall seq seq',
+  NoDup (map fst seq) -> Permutation seq seq' -> formatValue_map seq = formatValue_map seq'.
+Proof. intros. unfold formatValue_map. now rewrite (by_key_perm _ seq seq'). Qed.
+(* the UNSORTED variant (before fix 0a82bdd) *)
+Theorem formatValue_map_unsorted_refuted_proof :
+  exists seq seq', Permutation seq seq' /\ formatValue_map_unsorted seq <> formatValue_map_unsorted seq'.
 Proof.
   exists [("x", "1"); ("y", "2")], [("y", "2"); ("x", "1")]. split; [apply perm_swap|]. vm_compute. discriminate.
 Qed.
-Theorem formatValue_map_small_invariant_proof : forall seq seq', List.length seq <= 1 -> Permutation seq seq' ->
-  formatValue_map seq = formatValue_map seq'.
-Proof.
-  intros seq seq' Hl Hp. destruct seq as [|a [|b r]]; simpl in Hl; try lia.
-  - apply Permutation_nil in Hp. now subst.
-  - apply Permutation_length_1_inv in Hp. now subst.
-Qed.
 
 (* ------------------------------------------------------------------ ComposeBuilders / FromBuilder *)
-(* the SET of resulting builders / mappings never depends on the order; their ORDER does *)
-Theorem ComposeBuilders_perm_proof : forall B (kept : list B) compose seq seq', Permutation seq seq' ->
-  Permutation (ComposeBuilders kept compose seq) (ComposeBuilders kept compose seq').
-Proof. intros. unfold ComposeBuilders. apply Permutation_app_head. now apply append_each_perm. Qed.
-
-Theorem ComposeBuilders_order_refuted_proof :
-  exists (kept : list string) compose seq seq', Permutation seq seq' /\
-    ComposeBuilders kept compose seq <> ComposeBuilders kept compose seq'.
+(* CURRENT code (panel types sorted): the list of builders itself is order-free *)
+Theorem ComposeBuilders_invariant_proof : forall B (kept : list B) compose seq seq',
+  NoDup (map fst seq) -> Permutation seq seq' -> ComposeBuilders kept compose seq = ComposeBuilders kept compose seq'.
+Proof. intros. unfold ComposeBuilders. now rewrite (by_key_perm _ seq seq'). Qed.
+(* the UNSORTED variant (before fix 6494f77): same builders, their order followed the map *)
+Theorem ComposeBuilders_unsorted_perm_proof : forall B (kept : list B) compose seq seq', Permutation seq seq' ->
+  Permutation (ComposeBuilders_unsorted kept compose seq) (ComposeBuilders_unsorted kept compose seq').
+Proof. intros. unfold ComposeBuilders_unsorted. apply Permutation_app_head. now apply append_each_perm. Qed.
+Theorem ComposeBuilders_unsorted_order_refuted_proof :
+  exists (kept : list string) compose seq seq', Permutation seq seq' /    ComposeBuilders_unsorted kept compose seq <> ComposeBuilders_unsorted kept compose seq'.
 Proof.
   exists [], (fun e => [(fst e ++ ".Panel")%string]), [("timeseries", []); ("table", [])], [("table", []); ("timeseries", [])].
   split; [apply perm_swap|]. vm_compute. discriminate.
